@@ -60,10 +60,11 @@ def plan(tier, seed):
     if tier == "quick":
         return [dict(fam="items", n=1, nmax=5), dict(fam="items", n=2, nmax=4,
                                                      win=(seed, 12)),
-                dict(fam="greedy", nmax=5), dict(fam="collision")]
+                dict(fam="greedy", nmax=5), dict(fam="collision"),
+                dict(fam="imported", nmax=4)]
     return [dict(fam="items", n=1, nmax=5), dict(fam="items", n=2, nmax=5),
             dict(fam="items", n=3, nmax=4), dict(fam="greedy", nmax=6),
-            dict(fam="collision")]
+            dict(fam="collision"), dict(fam="imported", nmax=5)]
 
 
 def units(tier, seed):
@@ -82,6 +83,11 @@ def units(tier, seed):
             for i in range(0, n, 6):
                 out.append(dict(fam="greedy", nmax=row["nmax"],
                                 idx=list(range(i, min(n, i + 6)))))
+        elif row["fam"] == "imported":
+            n = len(all_items())
+            for i in range(0, n, 4):
+                out.append(dict(fam="imported", nmax=row["nmax"],
+                                idx=list(range(i, min(n, i + 4)))))
         else:
             out.append(dict(fam="collision"))
     return out
@@ -128,7 +134,8 @@ CONFIGS = [("lr", "lr", {}), ("lr/ps=0", "lr", {"prefer_shifts": False}),
 
 def build_or_name(kind, text, mon, tag, opts):
     try:
-        return build(kind, grammar_from_string(text), mon, tag=tag, ws="", **opts)
+        g = text() if callable(text) else grammar_from_string(text)
+        return build(kind, g, mon, tag=tag, ws="", **opts)
     except BudgetExceeded:
         return "BudgetExceeded"
     except Exception as e:     # noqa: BLE001
@@ -149,7 +156,8 @@ def compare(judge, st, mon, cfgbase, key, sug, exp, inputs, ref=None,
                                 "construction outcome differs from the "
                                 "documented expansion", {"sugar": na,
                                                          "expansion": nb},
-                                {"grammar": sug, "expansion": exp,
+                                {"grammar": key if callable(sug) else sug,
+                                 "expansion": exp,
                                  "parser": kind, "options": opts})
             continue
         runner = run_lr if kind == "lr" else run_glr
@@ -164,7 +172,8 @@ def compare(judge, st, mon, cfgbase, key, sug, exp, inputs, ref=None,
                                 "sugared grammar and its documented expansion "
                                 "disagree", {"sugar": str(r1)[:300],
                                              "expansion": str(r2)[:300]},
-                                {"grammar": sug, "expansion": exp,
+                                {"grammar": key if callable(sug) else sug,
+                                 "expansion": exp,
                                  "parser": kind, "options": dict(opts, ws=""),
                                  "input": s})
             if ref is not None and cname == "glr" and r1[0] != "budget":
@@ -304,7 +313,74 @@ def collision_unit():
     return r
 
 
+def imported_unit(u):
+    """the same shapes with the sugar inside an imported file, or applied in
+    the root file to an imported symbol"""
+    import os
+    import shutil
+    import tempfile
+    from parglare import Grammar
+    from pgmc.drive import quiet
+    mon = Monitor()
+    judge = Judge(PROP, KNOWN)
+    st = collections.Counter()
+    inputs = spaces.strings("ab,z", u["nmax"])
+    its = all_items()
+    samples = []
+    for si in u["idx"]:
+        b, o, sp_ = its[si]
+        for place in ("inside", "applied"):
+            if place == "applied" and (b.startswith("(") or not o):
+                continue
+            e = Exp()
+            body = e.item(b, o, sp_, "S")
+            exp = "S: " + body + " z;\n" + e.text() + "\n" + ARULE + TERMS + \
+                'z: "z";\n'
+            d = tempfile.mkdtemp(prefix="pgmc-c13-")
+            try:
+                if place == "inside":
+                    root = "import 'm.pg';\nS: m.X z;\nterminals\nz: \"z\";\n"
+                    m = f"X: {b}{o}{sp_};\n" + ARULE + TERMS
+                else:
+                    sep = sp_.replace("[", "[m.") if sp_ else ""
+                    root = (f"import 'm.pg';\nS: m.{b}{o}{sep} z;\n"
+                            "terminals\nz: \"z\";\n")
+                    m = "X: a b c A C;\n" + ARULE + TERMS
+                open(os.path.join(d, "root.pg"), "w").write(root)
+                open(os.path.join(d, "m.pg"), "w").write(m)
+
+                def loader():
+                    with quiet():
+                        g = Grammar.from_file(os.path.join(d, "root.pg"))
+                    for f_ in os.listdir(d):
+                        if f_.endswith(".pgc"):
+                            os.remove(os.path.join(d, f_))
+                    return g
+                if place == "inside":
+                    # X wraps the item: one more unit production in the results
+                    exp = "S: X z;\nX: " + body + ";\n" + e.text() + "\n" + \
+                        ARULE + TERMS + 'z: "z";\n'
+                compare(judge, st, mon, f"imported/{place}",
+                        f"{place}: {b}{o}{sp_}", loader, exp, inputs,
+                        fid="SUGAR-IMPORTED")
+                for f_ in os.listdir(d):
+                    if f_.endswith(".pgc"):
+                        os.remove(os.path.join(d, f_))
+                st["shapes"] += 1
+                if not samples:
+                    samples.append({"root.pg": root, "m.pg": m, "expansion": exp})
+            finally:
+                shutil.rmtree(d, ignore_errors=True)
+    r = judge.result()
+    r.update(st)
+    r.update(states=len(mon.states), transitions=mon.transitions,
+             traces=mon.traces, samples=samples)
+    return r
+
+
 def run_unit(u):
+    if u["fam"] == "imported":
+        return imported_unit(u)
     if u["fam"] == "items":
         return items_unit(u)
     if u["fam"] == "greedy":
